@@ -51,6 +51,14 @@ CLAIMED = {
    text="Proof (Lean 4), partial: over the lock-file protocol with an interleaving semantics for any number of processes and any schedule: C13_exclusion (no two processes ever hold one object's lock), C13_refused_changes_nothing, C13_released (no lock file once nobody is inside an operation), C13_holder_blocks, C13_different_objects_never_refused. Coverage (every object mutation of every locked operation lies between lock creation and removal; lock gone afterwards, also on failures) is decided on the strace of every operation; the same operations are re-run with the lock pre-held (must fail, change nothing) and as races of three processes. Residue: O_EXCL atomicity and Drop-on-unwind are assumed; serialisability across objects sharing an empty ancestor directory is only raced, not proved.",
    note="Trusted: Lean kernel + 3 standard axioms; kernel O_EXCL semantics; strace + parser.",
    technique="Lean 4 invariant proof over all interleavings of the lock protocol + trace oracle + races", design="§5-C13"),
+ "C04": dict(
+   text="Proof (Lean 4): over the install phase of write_new_version as a fault-aware state machine (rename of the version directory, in-place copy of root inventory and sidecar, declaration swap on upgrade, and the rollback as repaired) C04_atomic proves that for every step failing once the object is exactly the old state and an error is reported; C04_no_fault, C04_ok_only_if_new, C04_old_ne_new. The quantifier is the finite table of steps, decided completely. Tied to the code by replaying real commits under strace with every mutating system call failing once (and with SIGINT as the stop request) and comparing the observed state (old/new/other, semantically) with the model's verdict; the oracle also checks validity of the new version, that success is only reported for it, and that a retry and a reset succeed afterwards. Three genuine defects repaired.",
+   note="Trusted: Lean kernel + 3 standard axioms; single-fault assumption (rollback calls succeed); failing call has no effect of its own; strace injection; staging-phase faults judged by the oracle only.",
+   technique="Lean 4 exhaustive proof over the commit step table + strace single-fault enumeration on the real binary", design="§5-C04"),
+ "C05": dict(
+   text="Proof (Lean 4): C05_old_new_or_invalid — for a kill before any step of the install phase the object is the old state, the new state, or a state satisfying one of the conditions rocfl's validator reports; C05_old_new_not_flagged; C05_version_dir_moves_once (the new version directory is entirely in staging or entirely in the object). Tied to the code by SIGKILL injection before every mutating system call of real commits: previously committed version directories byte-identical, every content file of the new version in full in staging or in the object, and `rocfl validate` exits 2 whenever the state is neither old nor new.",
+   note="Trusted: Lean kernel + 3 standard axioms; process-kill model (calls already made are durable and ordered; no fsync modelling); flaggedInvalid is tied to the real validator by the enumeration.",
+   technique="Lean 4 exhaustive proof over the commit step table + strace kill-point enumeration on the real binary", design="§5-C05"),
 }
 NOT_YET = "not claimed yet: model/theorems for this property are still under construction in this round (see DESIGN.md §11 order of work)"
 checks = []
